@@ -103,7 +103,8 @@ def run(ck, P):
         nn = [q for q in sp if q.ret == size]
         okh = okh and len(nn) >= 1 and all(q.ret == size or q.ret == Aff(0, 0) for q in sp)
         det.append("m_mem_size = %s" % [repr(q.ret) for q in sp])
-        okh = okh and len(fail) == 1 and not fail[0].stores
+        # failing paths (allocator failure; a refusal of sizes that would wrap around) return NULL having stored nothing
+        okh = okh and len(fail) >= 1 and not any(q.stores for q in fail) and sum(1 for q in fail if q.allocs) <= 1
         ck.ob("C10.2-HEADER", site, okh, "; ".join(det))
         # protocol: new, ref, unref, unref
         okp, detp = _protocol(funcs, structs, p, reg, offs)
@@ -137,6 +138,16 @@ def run(ck, P):
                     if zero and un.ev_dominates(w, ev):
                         ok = True
             ck.ob("C10.4-WHO-WRITES-REFS", un.site("%s under --refs==0" % S(ev.e["fn"])), ok, "line %d under %s" % (ev.line, fmt_facts(facts)))
+
+    # what a block is — its size and its destructor — is written once, when it is created: the destructor still runs on a block that
+    # reports its true size
+    for fld in ("size", "dtor"):
+        ws_ = [w for w in P.writes_to_field("mem_header_t", fld)]
+        okw_ = bool(ws_) and all(w.fn.name == "m_mem_new" for w in ws_)
+        ck.ob("C10.4-WHO-WRITES-REFS", "%s:mem_header_t.%s written at creation only" % (U, fld), okw_,
+              "mem_header_t.%s is stored by %s" % (fld, sorted({w.fn.name for w in ws_})) + ("" if okw_ else
+              ": a block whose %s is rewritten after creation no longer reports what was requested (e.g. m_mem_size() is 0 inside the block's own "
+              "destructor, which then drops none of its children)" % fld), nontrivial=False)
 
     # the size is reported for every live pointer, whatever else the header holds (e.g. while the destructor runs with refs == 0)
     ms = P.fn("m_mem_size", U)
@@ -212,18 +223,37 @@ def run(ck, P):
     init = P.pointsto().pts.get(("global", "memhook"), set())
     ck.need({"malloc", "calloc", "free"} <= init, "memhook initialiser no longer names malloc/calloc/free (fixture for C10.6)")
 
+    # the configured allocator is looked up when it is used: no copy of a hook is kept in storage that outlives the call (a copy made before
+    # m_set_memhook() goes on naming the old allocator: blocks allocated by the new one are handed to the old one's free)
+    stale = []
+    for ev in P.all_events():
+        if ev.kind in ("assign", "decl") and ev.rhs is not None and ev.lhs is not None and S(strip(ev.rhs)).startswith("memhook."):
+            l_ = strip(ev.lhs)
+            root_ = lm.root_var(l_) if hasattr(lm, "root_var") else None
+            is_static = (l_.get("k") == "var" and l_.get("vk") in ("global", "slocal")) or (ev.kind == "decl" and ev.e.get("static")) \
+                or (l_.get("k") == "member")
+            if is_static:
+                stale.append(ev)
+    ck.ob("C10.6-MEMHOOK", "Lib:hooks are read at the point of use", not stale,
+          "no hook is copied into a variable or field that outlives the call" if not stale else
+          "'%s' at %s keeps a copy of a memhook entry beyond the call: after m_set_memhook() the copy still names the old allocator, so a block obtained "
+          "from the new allocator is released with the old one's free" % (S(stale[0].e)[:80], stale[0].where()))
+
     # replacing the allocator is all-or-nothing: a refused m_set_memhook leaves the old triple in place (a half-replaced triple allocates
     # with one allocator and frees with another)
     smh = P.fn("m_set_memhook", required=False)
     if smh is not None:
         ck.analysed(smh)
         stores = [e for e in smh.events() if e.kind == "assign" and S(e.lhs).startswith("memhook.")]
+        whole = [e for e in smh.events() if (e.kind == "assign" and S(e.lhs) == "memhook") or
+                 (e.kind == "call" and e.callee == "memcpy" and e.args and S(e.args[0]) == "&memhook")]
+        stores = stores + whole * 3          # a store of the whole triple at once (struct assignment) counts for its three fields
         fails = [e for e in smh.events() if e.kind == "ret" and e.e is not None and (cval(e.e) or 0) != 0]
         half = [(w, r) for w in stores for r in fails if rules.may_precede(smh, w, r)]
         ck.ob("C10.6-MEMHOOK", smh.site("all-or-nothing"), len(stores) >= 3 and not half,
               "m_set_memhook stores the %d hooks only after every argument check has passed" % len(stores) if not half else
               "m_set_memhook stores %s at line %d and can still refuse the call at line %d: the call fails but part of the allocator triple is already "
-              "replaced (blocks are then allocated by one allocator and freed by another)" % (S(half[0][0].lhs), half[0][0].line, half[0][1].line))
+              "replaced (blocks are then allocated by one allocator and freed by another)" % (S(half[0][0].lhs) if half[0][0].lhs is not None else "memhook", half[0][0].line, half[0][1].line))
 
     ck.extra["checker_cmd"] = "python3 engine/check.py C10 --tier %s   (engine/absint.py over `clang-14 -O1 -Xclang -disable-llvm-passes -S -emit-llvm` + `opt-14 -passes=function(mem2reg,simplifycfg)` of %s)" % (ck.tier, U)
     ck.extra["trusted_base"] = ["clang 14 lowering to LLVM IR and opt-14 mem2reg/simplifycfg", "engine/absint.py transfer functions (affine forms a*K+b, K>=0)",
